@@ -50,8 +50,8 @@ def gen_doc(rng, ptype=None, max_events=5, max_mult=4, ultra=False):
             pid = j if rng.random() < 0.9 else 20000001 + j          # labels beyond 2^24 as well
             rows.append([str(pid), str(pdg), str(status), E, px, py, pz])
         events.append({"rows": rows, "weight": rng.choice(["1", "0.5", "2.25e-3"]), "ep": rng.choice(["0", "0.25"])})
-    return {"ptype": ptype, "sep": sep, "events": events, "sigma": rng.choice(["0.000314633", "1.5", "2.5e-3"]),
-            "sigerr": rng.choice(["6.06164e-07", "0.125", "0"]), "final_newline": rng.random() < 0.7}
+    return {"ptype": ptype, "sep": sep, "events": events, "sigma": rng.choice(["0.000314633", "1.5", "2.5e-3", "3e-05", "1E-06", "7"]),
+            "sigerr": rng.choice(["6.06164e-07", "0.125", "0", "2e-07", "1e+1"]), "final_newline": rng.random() < 0.7}
 
 
 def render_lines(doc):
